@@ -191,6 +191,13 @@ func (g *replayGen) lit(v Val, t types.Type, build bool) string {
 			x = new(big.Int).Sub(x, new(big.Int).Lsh(big.NewInt(1), uint(w)))
 		}
 		return g.typeName(t) + "(" + x.String() + ")"
+	case CSmallArr:
+		a := under(t).(*types.Array)
+		var els []string
+		for i := range v.F {
+			els = append(els, g.lit(v.F[i], a.Elem(), build))
+		}
+		return g.typeName(t) + "{" + strings.Join(els, ", ") + "}"
 	case CArray:
 		a := under(t).(*types.Array)
 		if a.Len() > 512 || classOf(a.Elem()) != CInt {
